@@ -48,6 +48,7 @@ type fwdCtx struct {
 	summary    map[*ssa.Function]int // callee -> index of the parameter its non-negative results are >= of (-1: none)
 	busy       map[*ssa.Function]bool
 	noSentinel map[*ssa.Function]bool // callee never returns the -1 "not found" answer
+	jointBase  bool                   // while summarising: any integer parameter is a base
 }
 
 func isFieldLoad(v ssa.Value, f *types.Var) bool {
@@ -96,7 +97,18 @@ func (fc *fwdCtx) ge(v ssa.Value, facts []core.SSAFact, baseParam *ssa.Parameter
 	}
 	isBase := func(x ssa.Value) bool {
 		if baseParam != nil {
-			return x == ssa.Value(baseParam)
+			if x == ssa.Value(baseParam) {
+				return true
+			}
+			// joint summary: any integer parameter of the callee counts (the result is then >= the least of them)
+			if fc.jointBase {
+				if prm, ok := x.(*ssa.Parameter); ok && prm.Parent() == baseParam.Parent() {
+					if bt, ok := prm.Type().Underlying().(*types.Basic); ok && bt.Kind() == types.Int {
+						return true
+					}
+				}
+			}
+			return false
 		}
 		return isFieldLoad(x, fc.pos)
 	}
@@ -180,6 +192,23 @@ func (fc *fwdCtx) ge(v ssa.Value, facts []core.SSAFact, baseParam *ssa.Parameter
 		}
 		if cal := x.Call.StaticCallee(); cal != nil && core.InModule(cal) {
 			k := fc.summarise(cal)
+			if k == -2 {
+				// the result is >= the least of the callee's integer parameters: every such argument must be >= the position
+				allOK := true
+				why := ""
+				for i, prm := range cal.Params {
+					if bt, ok := prm.Type().Underlying().(*types.Basic); !ok || bt.Kind() != types.Int || i >= len(x.Call.Args) {
+						continue
+					}
+					if ok, w := fc.ge(x.Call.Args[i], facts, baseParam, inProgress, depth+1); !ok {
+						allOK, why = false, w
+					}
+				}
+				if allOK && (fc.noSentinel[cal] || fc.nonNeg(x, facts)) {
+					return true, ""
+				}
+				return false, fmt.Sprintf("result of %s: it is >= the least of its integer arguments, one of which is not shown >= the position (%s)", cal.Name(), why)
+			}
 			if k >= 0 && k < len(x.Call.Args) {
 				if ok, _ := fc.ge(x.Call.Args[k], facts, baseParam, inProgress, depth+1); ok && (fc.noSentinel[cal] || fc.nonNeg(x, facts)) {
 					return true, ""
@@ -231,6 +260,41 @@ func (fc *fwdCtx) summarise(fn *ssa.Function) int {
 					fc.noSentinel[fn] = true
 				}
 				break
+			}
+		}
+	}
+	if res == -1 && fn.Signature.Results().Len() == 1 && len(fn.Blocks) > 0 {
+		// no single parameter bounds every return: try them jointly (rewind(pos, limit) returns pos or something >= limit)
+		var first *ssa.Parameter
+		for _, prm := range fn.Params {
+			if bt, ok := prm.Type().Underlying().(*types.Basic); ok && bt.Kind() == types.Int {
+				first = prm
+				break
+			}
+		}
+		if first != nil {
+			fc.jointBase = true
+			all, some, sentinel := true, false, false
+			for _, b := range fn.Blocks {
+				ret, ok := b.Instrs[len(b.Instrs)-1].(*ssa.Return)
+				if !ok {
+					continue
+				}
+				if c, isC := core.IntConst(ret.Results[0]); isC && c == -1 {
+					sentinel = true
+					continue
+				}
+				some = true
+				if ok, _ := fc.ge(ret.Results[0], core.FactsAtBlock(b), first, map[ssa.Value]bool{}, 0); !ok {
+					all = false
+				}
+			}
+			fc.jointBase = false
+			if all && some {
+				res = -2
+				if !sentinel {
+					fc.noSentinel[fn] = true
+				}
 			}
 		}
 	}
